@@ -22,34 +22,110 @@ import (
 	"verif/internal/pbt"
 )
 
-// decompress is the independent reading of the file layer: Go's gzip and the xz package,
-// chosen from the extension
-func decompress(raw []byte, ext string) ([]byte, error) {
-	switch ext {
-	case ".gz":
-		r, err := gzip.NewReader(bytes.NewReader(raw))
-		if err != nil {
-			return nil, err
-		}
-		return io.ReadAll(r)
-	case ".xz":
-		r, err := xz.NewReader(bytes.NewReader(raw))
-		if err != nil {
-			return nil, err
-		}
-		return io.ReadAll(r)
+// ---- file names and containers --------------------------------------------------------------------
+
+// The documentation says: "If the given output file has a .gz or .xz extension, the output is
+// compressed accordingly", and the same two extensions (lower case) for input. For these, and for
+// names without anything resembling them, the container on disk is fixed (gzip, xz, plain). For
+// look-alikes (.GZ, .Gz, .XZ, .gzip, x.gz.txt ...) the documentation is silent: the file may be
+// plain or compressed (counted as ambiguous, the container is recognised from its magic bytes), but
+// writer and reader must agree - the file written under a name is read back under that name.
+var exactExts = []string{"", ".gz", ".xz"}
+
+var lookAlikes = []string{".GZ", ".Gz", ".gZ", ".XZ", ".Xz", ".xZ", ".gzip", ".GZIP", ".gz.txt", ".xz.fa", ".GZ.TXT", ".gz_", ".xz~", "gz", "xz", ".z", ".Z", ".zip", ".tgz", ".g.z", ".x.z"}
+
+// exts: two names in three carry a documented extension (or none), one in three a look-alike
+var exts = func() []string {
+	l := []string{}
+	for i := 0; i < 14; i++ {
+		l = append(l, exactExts[i%3])
 	}
-	return raw, nil
+	return append(l, lookAlikes...)
+}()
+
+// container: "plain", "gz", "xz" where the documentation fixes it, "" where it does not
+func container(ext string) string {
+	switch {
+	case strings.HasSuffix(ext, ".gz"):
+		return "gz"
+	case strings.HasSuffix(ext, ".xz"):
+		return "xz"
+	case ext == "":
+		return "plain"
+	}
+	return ""
 }
 
+func validExt(e string) bool {
+	if len(e) > 12 || strings.ContainsAny(e, "/\\ \t\n\x00") {
+		return false
+	}
+	// .bz / .bz2 have a reader and no writer in goalign: no round trip is stated for them
+	l := strings.ToLower(e)
+	return !strings.HasSuffix(l, ".bz") && !strings.HasSuffix(l, ".bz2")
+}
+
+// extName: class label of an extension
+func extName(e string) string {
+	switch {
+	case e == "":
+		return "plain"
+	case container(e) == "":
+		return "look-alike"
+	}
+	return e
+}
+
+func gunzip(raw []byte) ([]byte, error) {
+	r, err := gzip.NewReader(bytes.NewReader(raw))
+	if err != nil {
+		return nil, err
+	}
+	return io.ReadAll(r)
+}
+
+func unxz(raw []byte) ([]byte, error) {
+	r, err := xz.NewReader(bytes.NewReader(raw))
+	if err != nil {
+		return nil, err
+	}
+	return io.ReadAll(r)
+}
+
+// decompress is the independent reading of the file layer: Go's gzip and the xz package, chosen
+// from the extension where the documentation fixes the container, from the magic bytes otherwise
+// (ambiguous = true)
+func decompress(raw []byte, ext string) (text []byte, ambiguous bool, err error) {
+	switch container(ext) {
+	case "gz":
+		text, err = gunzip(raw)
+		return text, false, err
+	case "xz":
+		text, err = unxz(raw)
+		return text, false, err
+	case "plain":
+		return raw, false, nil
+	}
+	switch {
+	case bytes.HasPrefix(raw, []byte{0x1f, 0x8b}):
+		text, err = gunzip(raw)
+	case bytes.HasPrefix(raw, []byte{0xfd, '7', 'z', 'X', 'Z', 0}):
+		text, err = unxz(raw)
+	default:
+		text = raw
+	}
+	return text, true, err
+}
+
+// compress writes the container the documentation fixes for the extension (plain for look-alikes)
 func compress(text string, ext string) []byte {
 	var b bytes.Buffer
-	switch ext {
-	case ".gz":
+	switch container(ext) {
+	case "gz":
 		w := gzip.NewWriter(&b)
 		w.Write([]byte(text))
 		w.Close()
-	case ".xz":
+	case "xz":
 		w, err := xz.NewWriter(&b)
 		if err != nil {
 			panic(err)
@@ -62,15 +138,16 @@ func compress(text string, ext string) []byte {
 	return b.Bytes()
 }
 
-var exts = []string{"", ".gz", ".xz"}
-
-func validExt(e string) bool { return e == "" || e == ".gz" || e == ".xz" }
-
-func extName(e string) string {
-	if e == "" {
-		return "plain"
+// fileName: base names in lower, upper and mixed case, then the format and the extension
+func fileName(prefix string, n int64, format, ext string, style int) string {
+	base := fmt.Sprintf("%s%d.%s", prefix, n, format)
+	switch style {
+	case 1:
+		base = strings.ToUpper(base)
+	case 2:
+		base = strings.ToUpper(base[:1]) + base[1:]
 	}
-	return e
+	return base + ext
 }
 
 // ---- how a text is handed to the writer ----------------------------------------------------------
@@ -184,7 +261,7 @@ func priorContent(text string) string {
 // writeFile writes the pieces through utils.OpenWriteFile - over an existing longer file if the
 // plan says so - and checks, with an independent reader, that the file holds exactly their
 // concatenation in the container its name announces, and nothing else
-func writeFile(path, ext string, pieces []string, p writePlan) (priorLonger bool, err error) {
+func writeFile(path, ext string, pieces []string, p writePlan) (priorLonger, ambiguous bool, err error) {
 	text := strings.Join(pieces, "")
 	sizes := make([]int, len(pieces))
 	for i := range pieces {
@@ -194,11 +271,11 @@ func writeFile(path, ext string, pieces []string, p writePlan) (priorLonger bool
 	switch p.Prior {
 	case 1:
 		if err = writeOnce(path, []string{priorContent(text)}, writePlan{}); err != nil {
-			return false, err
+			return false, false, err
 		}
 	case 2:
 		if e := os.WriteFile(path, []byte(priorContent(text)), 0o644); e != nil {
-			return false, fmt.Errorf("harness: %v", e)
+			return false, false, fmt.Errorf("harness: %v", e)
 		}
 	}
 	if p.Prior != 0 {
@@ -207,37 +284,37 @@ func writeFile(path, ext string, pieces []string, p writePlan) (priorLonger bool
 		}
 	}
 	if err = writeOnce(path, pieces, p); err != nil {
-		return false, err
+		return false, false, err
 	}
 	raw, e := os.ReadFile(path)
 	if e != nil {
-		return false, fmt.Errorf("harness: %v", e)
+		return false, false, fmt.Errorf("harness: %v", e)
 	}
 	if p.Prior != 0 {
 		// the file must be what a write to a fresh path gives
 		fresh := filepath.Join(filepath.Dir(path), "fresh-"+filepath.Base(path))
 		defer os.Remove(fresh)
 		if err = writeOnce(fresh, pieces, p); err != nil {
-			return false, err
+			return false, false, err
 		}
 		rawFresh, e := os.ReadFile(fresh)
 		if e != nil {
-			return false, fmt.Errorf("harness: %v", e)
+			return false, false, fmt.Errorf("harness: %v", e)
 		}
 		priorLonger = priorSize > int64(len(rawFresh))
 		if !bytes.Equal(raw, rawFresh) {
-			return priorLonger, fmt.Errorf("writing %d bytes of text through OpenWriteFile to an existing %q file of %d bytes leaves %d bytes on disk; the same writes to a fresh path give %d bytes (first difference at byte %d): the previous content is not replaced",
+			return priorLonger, false, fmt.Errorf("writing %d bytes of text through OpenWriteFile to an existing %q file of %d bytes leaves %d bytes on disk; the same writes to a fresh path give %d bytes (first difference at byte %d): the previous content is not replaced",
 				len(text), extName(ext), priorSize, len(raw), len(rawFresh), firstDiff(string(raw), string(rawFresh)))
 		}
 	}
-	back, e := decompress(raw, ext)
+	back, ambiguous, e := decompress(raw, ext)
 	if e != nil {
-		return priorLonger, fmt.Errorf("the %q file written through OpenWriteFile is not readable by an independent %s reader: %v (%d bytes on disk for %d bytes of text, written in pieces of %v bytes)", ext, ext, e, len(raw), len(text), sizes)
+		return priorLonger, false, fmt.Errorf("the %q file written through OpenWriteFile is not readable by an independent %s reader: %v (%d bytes on disk for %d bytes of text, written in pieces of %v bytes)", ext, ext, e, len(raw), len(text), sizes)
 	}
 	if string(back) != text {
-		return priorLonger, fmt.Errorf("the file written through OpenWriteFile (%q) in pieces of %v bytes holds %d bytes instead of the %d written; first difference at byte %d", ext, sizes, len(back), len(text), firstDiff(string(back), text))
+		return priorLonger, false, fmt.Errorf("the file written through OpenWriteFile (%q) in pieces of %v bytes holds %d bytes instead of the %d written; first difference at byte %d", ext, sizes, len(back), len(text), firstDiff(string(back), text))
 	}
-	return priorLonger, nil
+	return priorLonger, ambiguous, nil
 }
 
 func classifyPlan(o *pbt.Outcome, pieces []string, ext string, p writePlan, priorLonger bool) {
@@ -286,6 +363,8 @@ type fileCase struct {
 	Cfg    cfg       `json:"cfg"`
 	Ext    string    `json:"ext"`
 	Plan   writePlan `json:"plan"`
+	// NameStyle: base name of the file in lower (0), upper (1) or mixed (2) case
+	NameStyle int `json:"name_style,omitempty"`
 }
 
 var fileSeq int64
@@ -297,6 +376,7 @@ func genFile(t *rapid.T) fileCase {
 	c.Ext = rapid.SampledFrom(exts).Draw(t, "ext")
 	c.Ali, c.Shape = genSized(t, domOf(c.Cfg), rapid.SampledFrom(singleSizes).Draw(t, "size"), c.Cfg)
 	c.Plan = genPlan(t)
+	c.NameStyle = rapid.IntRange(0, 2).Draw(t, "namestyle")
 	return c
 }
 
@@ -311,12 +391,16 @@ func checkFile(c fileCase) (o pbt.Outcome, err error) {
 		return o, err
 	}
 	text := writeText(al, c.Cfg)
-	path := filepath.Join(fileDir, fmt.Sprintf("a%d.%s%s", atomic.AddInt64(&fileSeq, 1), c.Cfg.Format, c.Ext))
+	path := filepath.Join(fileDir, fileName("a", atomic.AddInt64(&fileSeq, 1), c.Cfg.Format, c.Ext, c.NameStyle))
 	defer os.Remove(path)
 	pieces := c.Plan.pieces([]string{text})
-	priorLonger, err := writeFile(path, c.Ext, pieces, c.Plan)
+	priorLonger, ambiguous, err := writeFile(path, c.Ext, pieces, c.Plan)
 	if err != nil {
 		return o, err
+	}
+	if ambiguous {
+		o.Ambiguous++
+		o.Class("file name with a look-alike extension: writer and reader must agree")
 	}
 	// and it is read back to the same alignment
 	var got align.Alignment
@@ -371,6 +455,8 @@ type fstreamCase struct {
 	Strict bool      `json:"strict"`
 	Ext    string    `json:"ext"`
 	Plan   writePlan `json:"plan"`
+	// NameStyle: base name of the file in lower (0), upper (1) or mixed (2) case
+	NameStyle int `json:"name_style,omitempty"`
 	// Reader: "auto" = GetReader + ParseMultiAlignmentsAuto with the file as closer (what the
 	// command line does with --auto-detect); "multiple" = GetReader + phylip ParseMultiple (-p)
 	Reader string `json:"reader"`
@@ -393,6 +479,7 @@ func genFStream(t *rapid.T) fstreamCase {
 	c.Reader = rapid.SampledFrom([]string{"auto", "multiple"}).Draw(t, "reader")
 	c.Alis, c.Shapes, c.Opts = genSizedStream(t, domOf(cfg{Format: "phylip", Strict: c.Strict}), c.Strict, 2, 6)
 	c.Plan = genPlan(t)
+	c.NameStyle = rapid.IntRange(0, 2).Draw(t, "namestyle")
 	return c
 }
 
@@ -422,13 +509,17 @@ func checkFStream(c fstreamCase) (o pbt.Outcome, err error) {
 	for _, s := range texts {
 		total += len(s)
 	}
-	path := filepath.Join(fileDir, fmt.Sprintf("s%d.phy%s", atomic.AddInt64(&fileSeq, 1), c.Ext))
+	path := filepath.Join(fileDir, fileName("s", atomic.AddInt64(&fileSeq, 1), "phy", c.Ext, c.NameStyle))
 	defer os.Remove(path)
 	// one write per alignment (what goalign reformat phylip does), cut further by the plan
 	pieces := c.Plan.pieces(texts)
-	priorLonger, err := writeFile(path, c.Ext, pieces, c.Plan)
+	priorLonger, ambiguous, err := writeFile(path, c.Ext, pieces, c.Plan)
 	if err != nil {
 		return o, err
+	}
+	if ambiguous {
+		o.Ambiguous++
+		o.Class("file name with a look-alike extension: writer and reader must agree")
 	}
 	sizes := make([]int, len(texts))
 	for i := range texts {
@@ -525,11 +616,11 @@ func TestCompressedInput(t *testing.T) {
 	pbt.Run(t, func(t *rapid.T) readCase {
 		var c readCase
 		c.Cfg = genCfg(t, "cfg")
-		c.Ext = rapid.SampledFrom(exts).Draw(t, "ext")
+		c.Ext = rapid.SampledFrom(exactExts).Draw(t, "ext")
 		c.Ali, c.Shape = genSized(t, domOf(c.Cfg), rapid.SampledFrom(singleSizes).Draw(t, "size"), c.Cfg)
 		return c
 	}, func(c readCase) (o pbt.Outcome, err error) {
-		if !c.Cfg.valid() || !inDomain(c.Ali, domOf(c.Cfg)) || !validExt(c.Ext) || !c.Shape.valid() {
+		if !c.Cfg.valid() || !inDomain(c.Ali, domOf(c.Cfg)) || container(c.Ext) == "" || !c.Shape.valid() {
 			o.Skip = true
 			return o, nil
 		}
